@@ -10,9 +10,11 @@ Init ==
   /\ kind \in {"loguniform", "sigmak", "lnprior"}
   /\ \/ kind = "loguniform" /\ \E i \in 0..3 : \E k \in 1..2 : c = [i |-> i, k |-> k]
      \/ kind = "sigmak" /\ \E s \in {1, 2} : \E p3 \in P3s : \E r \in Rs : \E cap \in {<<1, 1>>, <<3, 2>>, <<500, 1>>} :
-            c = [sK0 |-> <<s, 1>>, p3 |-> p3, r |-> r, maxK |-> cap]
+          \E mu \in {<<0, 1>>, <<3, 1>>, <<-2, 1>>} :
+            c = [sK0 |-> <<s, 1>>, p3 |-> p3, r |-> r, maxK |-> cap, mu |-> mu]
      \/ kind = "lnprior" /\ \E gl \in BOOLEAN : \E poly \in 1..3 : \E noff \in 0..2 : \E ss \in BOOLEAN :
-            c = [gl |-> gl, poly |-> poly, noff |-> noff, sampledS |-> ss]
+          \E sk \in {"uniform", "lognormal"} : \E vu \in 1..3 :
+            c = [gl |-> gl, poly |-> poly, noff |-> noff, sampledS |-> ss, skind |-> sk, vunits |-> vu]
   /\ pc = "new"
 Done == /\ pc = "new" /\ pc' = "exported" /\ (Export => PrintT(<<"CASE", kind, c>>)) /\ UNCHANGED <<kind, c>>
 Next == Done
@@ -26,5 +28,7 @@ LogFlat == kind = "loguniform" => \A u4 \in 0..3 :
 RatioLaw == kind = "loguniform" => \A u, v \in 0..4 :
     RMul(DensRatio(DrawP(c.i, c.k, u), DrawP(c.i, c.k, v)), DrawP(c.i, c.k, u)) = DrawP(c.i, c.k, v)
 SigmaCapped == kind = "sigmak" => RLe(SigmaK(c.sK0, c.p3, c.r, c.maxK), c.maxK)
+\* the log-density of K about its mean is even in z and zero at the mean
+ZSqEven == kind = "sigmak" => \A z \in {<<0, 1>>, <<1, 1>>, <<-1, 1>>, <<2, 1>>} : ZSq(z) = ZSq(RNeg(z)) /\ (ZSq(z) = R(0) <=> z = R(0))
 KOnlyWithLinear == kind = "lnprior" => (("K" \in TermSet(c.gl, c.poly, c.noff, c.sampledS)) <=> c.gl)
 =============================================================================
